@@ -52,6 +52,10 @@ func sigClass(sig string) string {
 		return sig
 	case "F13s":
 		return p[0] + "/" + p[1] // wrapping; the op sequence is in the detail
+	case "F8x":
+		if len(p) >= 3 {
+			return p[0] + "/" + p[1] + "/" + p[2] // the kinds of the first two bindings
+		}
 	case "F5reach":
 		// entry-point/helper counts, declaration order and the set of touched global kinds
 		if len(p) >= 6 {
@@ -142,9 +146,9 @@ func quickFamilies(r *explore.Run) []*wgen.Family {
 
 func baseFamilies(r *explore.Run) []*wgen.Family {
 	if r.Thorough() {
-		return []*wgen.Family{wgen.F1(), wgen.F2(3, false), wgen.F2(5, true), wgen.F2L(3, false), wgen.F2L(4, true), wgen.F4c(true), wgen.F2Mini(5, 3), wgen.F2Mini(4, 4), wgen.F1lit()}
+		return []*wgen.Family{wgen.F1(), wgen.F2(3, false), wgen.F2(5, true), wgen.F2L(3, false), wgen.F2L(4, true), wgen.F4c(true), wgen.F2Mini(5, 3), wgen.F2Mini(4, 4), wgen.F1lit(), wgen.F8x()}
 	}
-	return []*wgen.Family{wgen.F1(), wgen.F2(2, false), wgen.F2(4, true), wgen.F2L(2, false), wgen.F2L(3, true), wgen.F4c(false), wgen.F2Mini(4, 3), wgen.F2Mini(3, 4), wgen.F1lit()}
+	return []*wgen.Family{wgen.F1(), wgen.F2(2, false), wgen.F2(4, true), wgen.F2L(2, false), wgen.F2L(3, true), wgen.F4c(false), wgen.F2Mini(4, 3), wgen.F2Mini(3, 4), wgen.F1lit(), wgen.F8x()}
 }
 
 // prog is one program presented to a per-program check.
@@ -188,6 +192,8 @@ func familyByName(name string) *wgen.Family {
 		return wgen.F4Idx()
 	case "F1lit":
 		return wgen.F1lit()
+	case "F8x":
+		return wgen.F8x()
 	case "F4c":
 		return wgen.F4c(false)
 	case "F4call":
